@@ -199,3 +199,13 @@ package machine
 //@   ensures err == nil ==> valType(ret0) == typ
 //@   nopanic // C12
 //@   property C12 C01
+
+// ---- C03: the share a percentage denotes. "12.5%" is the rational its decimal text denotes, divided by 100 -- whatever
+// the number of decimals; a fraction "a/b" is the rational that text denotes. (What text denotes which rational is
+// big.Rat.SetString: library.)
+//@ def pctMatch(s) = lib("(*regexp.Regexp).FindStringSubmatch", lib("regexp.MustCompile", "^([0-9]+)(?:[.]([0-9]+))?[%]$"), s)
+//@ func machine.ParsePortionSpecific
+//@   ensures err == nil ==> ret0 != nil && !ret0.Remaining && ret0.Specific != nil
+//@   ensures err == nil && len(pctMatch(input)) != 0 ==> val(ret0.Specific) == ratOfString(pctMatch(input)[1] + "." + pctMatch(input)[2]) / toReal(100)
+//@   ensures err == nil ==> toReal(0) <= val(ret0.Specific) && val(ret0.Specific) <= toReal(1)
+//@   property C03
